@@ -262,6 +262,26 @@ func (c *ctx) history(name band.Name, nops int) error {
 		}
 		c.emit(cflistEvent(b, cfVersions[c.rnd.Intn(len(cfVersions))]))
 	}
+	if proj["extra"].(bool) && c.rnd.Intn(4) == 0 {
+		// single-data-rate channels added from the top down: the set of enabled data-rates has a hole that the next
+		// addition fills (every step is followed by the full projection, i.e. by queries)
+		top := 6 + c.rnd.Intn(6)
+		for a := top; a >= top-2 && a >= 0; a-- {
+			f := c.bandFreq(chans)/100*100 + 100
+			mn := a
+			ev := M{"ev": "op", "bname": b.Name(), "op": "add", "rawf": strconv.FormatUint(uint64(f), 10), "f": freqVal(f), "min": mn, "max": mn}
+			ev["code"] = codeErr(func() error { return b.AddChannel(f, mn, mn) })
+			if proj, chans, err = planProjection(b); err != nil {
+				return err
+			}
+			ev["proj"] = proj
+			ev["lookups"] = lookupEvents(c, b, chans)
+			c.emit(ev)
+			if c.rnd.Intn(2) == 0 {
+				a--
+			}
+		}
+	}
 	for i := 0; i < nops; i++ {
 		ev := c.applyRandomOp(b, len(chans), chans, 40)
 		proj, chans, err = planProjection(b)
@@ -457,7 +477,8 @@ func (c *ctx) planCase(name band.Name, nsets int, exhaustive bool) error {
 			_, chans, _ = planProjection(b)
 		}
 	}
-	if !exhaustive && len(chans) > 16 && c.rnd.Intn(2) == 0 {
+	almost := c.mode == "plan72" // nearly complete plans: a few single channels off, nothing else
+	if !almost && !exhaustive && len(chans) > 16 && c.rnd.Intn(2) == 0 {
 		// the usual deployment of a 72- / 96-channel plan: the network uses one or two 8-channel sub-bands (and, with 72
 		// channels, some of the 500 kHz channels 64..71); everything else is disabled
 		keep := map[int]bool{}
@@ -479,7 +500,7 @@ func (c *ctx) planCase(name band.Name, nsets int, exhaustive bool) error {
 		}
 		_, chans, _ = planProjection(b)
 	}
-	if !exhaustive && len(chans) > 16 && c.rnd.Intn(3) == 0 {
+	if !almost && !exhaustive && len(chans) > 16 && c.rnd.Intn(3) == 0 {
 		// one or two whole 16-channel blocks switched off, the rest untouched: a channel-mask CFList with an all-zero mask
 		// BETWEEN non-zero ones
 		for k := 0; k < 1+c.rnd.Intn(2); k++ {
@@ -490,7 +511,22 @@ func (c *ctx) planCase(name band.Name, nsets int, exhaustive bool) error {
 		}
 		_, chans, _ = planProjection(b)
 	}
-	for i := 0; i < c.rnd.Intn(14); i++ {
+	if !exhaustive && len(chans) > 16 && (almost || c.rnd.Intn(3) == 0) {
+		// almost-full blocks: ONE channel of a block switched off - its first, its last, or one in the middle
+		for k := 0; k < 1+c.rnd.Intn(3); k++ {
+			blk := c.rnd.Intn((len(chans) + 15) / 16)
+			i := blk*16 + c.pick(0, 15, 15, 7, 8, c.rnd.Intn(16))
+			if i < len(chans) {
+				b.DisableUplinkChannelIndex(i)
+			}
+		}
+		_, chans, _ = planProjection(b)
+	}
+	nrand := c.rnd.Intn(14)
+	if almost {
+		nrand = c.rnd.Intn(2)
+	}
+	for i := 0; i < nrand; i++ {
 		c.applyRandomOp(b, len(chans), chans, maxChans)
 		_, chans, _ = planProjection(b)
 	}
@@ -572,6 +608,22 @@ func xlayerEvents(c *ctx, name band.Name) error {
 			}
 			emit("added-channel", "DLChannelReq", key("down", 10), M{"ChIndex": i % 256, "Freq": freqVal(ch.Frequency)})
 		}
+		// ... and through NewChannelReq, whose 24-bit field has two codings (100 Hz units below 1.2 GHz, 200 Hz units from
+		// 2.4 GHz on): frequencies at the ends of both ranges.  What the field cannot carry must be refused, not altered.
+		for k := 0; k < 6; k++ {
+			f := uint32(c.pick(1199999900, 1200000000, 2400000000, 2400000200, 2479000000, 3355443000, 3355442800, 3355443200, 3355443400, 4294967200,
+				2400000000+200*c.rnd.Intn(4777216)))
+			if err := b.AddChannel(f, 0, 5); err != nil {
+				continue
+			}
+			idx := b.GetUplinkChannelIndices()
+			i := idx[len(idx)-1]
+			ch, err := b.GetUplinkChannel(i)
+			if err != nil {
+				continue
+			}
+			emit("added-channel-nc", "NewChannelReq", key("down", 7), M{"ChIndex": i % 256, "Freq": freqVal(ch.Frequency), "MinDR": ch.MinDR, "MaxDR": ch.MaxDR})
+		}
 	}
 	return nil
 }
@@ -587,6 +639,12 @@ func drvChPlan(c *ctx) error {
 	case "plan":
 		for i := 0; i < c.n; i++ {
 			if err := c.planCase(bandNames[i%14], 40, false); err != nil {
+				return err
+			}
+		}
+	case "plan72": // the 72- / 96-channel plans, nearly complete (see planCase)
+		for i := 0; i < c.n; i++ {
+			if err := c.planCase([]band.Name{band.US915, band.AU915, band.CN470}[i%3], 30, false); err != nil {
 				return err
 			}
 		}
